@@ -418,6 +418,12 @@ class KSer:
             return self.lower.fld(base.base.name, int(base.indices[0]) + 1, side, al)
         if lg is not None:
             raise Unsupported("derivative of %s" % type(base).__name__)
+        if side != "0" and isinstance(base, Symbol) and not isinstance(base, Constant) and \
+                base.name in (LOGI if self.w.lg else PHYS):
+            # minus(x) / plus(x) of a coordinate (the library's product rule minus(x*w) = minus(x)*minus(w) makes them):
+            # a point of the interface has one position, the coordinate function has the same value on both sides
+            self.flags.add("restricted-coordinate")
+            side = "0"
         if side != "0":
             raise Unsupported("restriction of %s" % type(base).__name__)
         if isinstance(base, Constant):
